@@ -50,10 +50,13 @@ def _expand_slice_subrange(case, clause):
 def _psi_end_backtrack(case, clause):
     """Backtracking from a matrix whose relaxed end is marked with -1: the first move out of a marked
     cell is chosen by predecessor cost instead of following the marks, so the path may miss the chosen
-    end point (fails only the end / cost / empty clause; steps, band, range and start are still checked)."""
+    end point: the traced path then stops in a cell that is not an admissible end (clause "end"), or is empty.
+    A path that reaches an admissible end but whose cost is not the optimum (clause "cost") is NOT this
+    finding: leaving the marks towards a cheaper predecessor never lands in the relaxed last row / column
+    again (0 of 2240 known hits of the quick tier), so a cost deviation under psi is reported."""
     if not (case["psi"][1] > 0 or case["psi"][3] > 0):
         return False
-    return bool(re.search(r":(end|cost|empty)$", clause))
+    return bool(re.search(r":(end|empty)$", clause))
 
 
 @predicate("c08_expand_slice_subrange")
